@@ -23,10 +23,16 @@
 
   The completion_forwarder hop is modelled AS CODED: after the hand-off (`try_complete` won by
   the popping thread, or by the uncontended `try_lock` path of start()) the waiter's completion is
-  re-scheduled on the receiver's scheduler, and the schedule-operation is connected with a receiver
-  that forwards the FINAL receiver's stop token.  Every libunifex scheduler completes such an
-  operation with set_done when that token has a stop request at the time it runs, so the waiter
-  then receives set_done although `locked_` stays true on its behalf (pc 15 below).
+  re-scheduled on the receiver's scheduler.  The schedule-operation is connected with a receiver
+  that answers get_stop_token with `unstoppable_token` (completion_forwarder.hpp, since the repair
+  of DESIGN §8 #3), so the scheduler cannot turn the already decided completion into set_done:
+  pc 15 delivers `forward_set_value()`.  This is `Config.fwdStop = false`, the default and the ONLY
+  behaviour tied to the real code.
+  LEGACY: `fwdStop := true` is a hand transcription of the forwarder as it was BEFORE that repair
+  (the rescheduling receiver forwarded the waiter's own stop token, and every libunifex scheduler
+  completes such an operation with set_done when that token has a stop request at the time it
+  runs).  It is kept only for the legacy theorems in Props/C15_v2legacy.lean, which document the
+  lock leak the repair removed; no scenario on the current code uses it.
 
   Client programs are the configuration: each thread runs a script; the scheduler of the waiters'
   receivers is either *deferred* (schedule-operations are queued and executed by `runAll` on the
@@ -53,11 +59,11 @@ structure Config where
   scripts : List (List Op)
   nw : Nat                    -- waiter ids are 0 .. nw-1
   deferred : Bool
-  /-- the receiver that completion_forwarder connects to the rescheduling `schedule()` answers
-      get_stop_token with the waiter's stop token.  `true` = the code as it stands.  `false` = the
-      proposed repair (answer with unstoppable_token, as v2::async_manual_reset_event's own
-      reschedule_receiver does). -/
-  fwdStop : Bool := true
+  /-- LEGACY switch.  `false` (default) = the code: the receiver that completion_forwarder connects
+      to the rescheduling `schedule()` answers get_stop_token with unstoppable_token.
+      `true` = the forwarder before the repair of DESIGN §8 #3 (it forwarded the waiter's stop
+      token); hand-transcribed, not tied to any current code. -/
+  fwdStop : Bool := false
 
 structure Frame where
   pc : Nat
@@ -231,8 +237,8 @@ def stepThr (cfg : Config) (s : St) (t : Nat) : Option (Lbl × St) :=
       some (tau t, pop { s with schedQ := s.schedQ ++ [i] } t)
     | 15 =>  -- the schedule-operation runs: get_stop_token(forwarder receiver).stop_requested()
       if w.stopReq && cfg.fwdStop then
-        -- set_done on the forwarder's receiver → set_done on the final receiver.
-        -- (if the lock was granted to i, it stays held: nothing releases it)
+        -- LEGACY only (pre-repair forwarder): set_done on the forwarder's receiver → set_done on the
+        -- final receiver; if the lock was granted to i, it stays held: nothing releases it
         some (deliverDone s t i)
       else
         -- forward_set_value(): cancelled_ ? set_done : set_value
@@ -308,7 +314,8 @@ def endOk (s : St) : Bool :=
     * resume_'s "already completed" branch is never taken;
     * FIFO: queued waiters receive set_value in push_back order (cancelled ones removed);
     * no deadlock.
-    Clauses guarded by `noHazard` (they are FALSE without the guard, see `v2_lock_leak_witness`):
+    Clause guarded by `noHazard` (`safeFull` is the unguarded, full property; the guard only
+    matters for the LEGACY forwarder, `fwdStop := true`, where the unguarded clause is false):
     * at the end every started waiter completed exactly once, the queue is empty, and the lock is
       not leaked: `locked` only if a party still holds it. -/
 def safe (cfg : Config) (s : St) : Bool :=
@@ -394,12 +401,13 @@ def coded : Coded St :=
 def cfgHandoff : Config := { scripts := [[.tryCs 0, .runAll, .tryCs 9], [.lock 0]], nw := 1, deferred := true }
 /-- T0 holds, T1 queues waiter 0, T0 unlocks when T1's start() has returned; T2 requests stop on
     the waiter at ANY time (before start, queued, popped, after the hand-off).
-    `lock not leaked` FAILS here (see `v2_lock_leak_witness`). -/
+    -/
 def cfgHandoffStop : Config :=
   { scripts := [[.tryHold 0, .waitIp 1 2, .release 0, .runAll, .tryCs 9], [.waitIp 0 1, .lock 0], [.waitIp 0 1, .stop 0]], nw := 1, deferred := true }
-/-- deterministic reproducer of the leak: T0 holds, T1 queues waiters 0 and 1 and finishes, T0
+/-- regression scenario for DESIGN §8 #3: T0 holds, T1 queues waiters 0 and 1 and finishes, T0
     unlocks (hand-off to 0, completion re-scheduled), THEN T2 requests stop on 0, then T0 drains the
-    scheduler: waiter 0 completes with done, the mutex stays locked, waiter 1 starves. -/
+    scheduler: waiter 0 still gets set_value, unlocks, waiter 1 is served.  (With the pre-repair
+    forwarder — `cfgLeakSeqLegacy` — waiter 0 got done, the mutex stayed locked, waiter 1 starved.) -/
 def cfgLeakSeq : Config :=
   { scripts := [[.tryHold 0, .waitIp 1 3, .release 0, .waitIp 2 2, .runAll, .tryCs 9], [.waitIp 0 1, .lock 0, .lock 1],
     [.waitIp 0 3, .stop 0]], nw := 2, deferred := true }
@@ -421,10 +429,8 @@ def cfgRaceTry : Config := { scripts := [[.waitAll, .tryCs 9], [.lock 0], [.tryC
 def cfgHandoffTry : Config :=
   { scripts := [[.tryHold 0, .waitIp 1 2, .release 0, .waitAll, .tryCs 9], [.waitIp 0 1, .lock 0], [.waitIp 0 1, .tryCs 2]], nw := 1, deferred := false }
 
-/-- the same scenarios with the repaired completion_forwarder (`fwdStop := false`) -/
-def configsFixed : List (String × Config) :=
-  [("v2_handoff_stop", { cfgHandoffStop with fwdStop := false }), ("v2_leak_seq", { cfgLeakSeq with fwdStop := false }),
-   ("v2_inline_stop", { cfgInlineStop with fwdStop := false }), ("v2_cancel_first", { cfgCancelFirst with fwdStop := false })]
+/-- LEGACY: the regression scenario with the pre-repair forwarder (not tied to current code) -/
+def cfgLeakSeqLegacy : Config := { cfgLeakSeq with fwdStop := true }
 
 def configs : List (String × Config) :=
   [("v2_handoff", cfgHandoff), ("v2_handoff_stop", cfgHandoffStop), ("v2_leak_seq", cfgLeakSeq),
